@@ -260,6 +260,25 @@ func (g *msgGen) mutants(fields []wf, msgType string) []mutant {
 		f[1].val = "~~"
 		ms = append(ms, mutant{"msgtype", 35, f})
 	}
+	// XMLData carried with its length in the header, the data containing SOH bytes: a conforming message (the parser
+	// allocates one field slot per SOH byte, so this message leaves slots unused)
+	if _, has := g.tdd.Header.Tags[213]; has {
+		if _, has := g.tdd.Header.Tags[212]; has {
+			present := false
+			for _, f := range fields {
+				if f.tag == 212 || f.tag == 213 {
+					present = true
+				}
+			}
+			if !present {
+				data := []string{"<a>\x01</a>", "x\x01y\x01z", "\x01", "<m 1=2\x0134=5\x01/>"}[rng.Intn(4)]
+				at := lastOf('h')
+				ms = append(ms, mutant{"xmldatasoh", 213, insert(fields, at,
+					wf{tag: 212, val: strconv.Itoa(len(data)), sec: 'h', def: g.tdd.Header.Fields[212]},
+					wf{tag: 213, val: data, sec: 'h', def: g.tdd.Header.Fields[213]})})
+			}
+		}
+	}
 	// missing required top-level field
 	if i := pick(func(i int) bool { return fields[i].depth == 0 && fields[i].def != nil && fields[i].def.Required() }); i >= 0 {
 		ms = append(ms, mutant{"missing", fields[i].tag, remove(fields, i, blockLen(fields, i))})
@@ -447,12 +466,51 @@ func parsedSx(raw []byte, app, transport *dd.DataDictionary) (Sx, *quickfix.Mess
 		s, _ := msg.Header.GetString(35)
 		mt = Some(Str(s))
 	}
-	tags, vals := quickfix.VerifDictWireFields(msg)
+	// the field list the model and the specification judge is read off the wire by a scanner of our own (tag=value SOH, the
+	// value of 213 taken with the length 212 announced), not taken from the parser's field array: if the array the
+	// validator walks over is not the wire's fields (unused or stale slots), the verdicts differ
 	fl := List{}
-	for i := range tags {
-		fl = append(fl, L(Int(tags[i]), Bytes(vals[i])))
+	for _, f := range wireFields(raw) {
+		fl = append(fl, L(Int(f.tag), Bytes(f.val)))
 	}
 	return L(tagsSx(msg.Header.Tags()), tagsSx(msg.Body.Tags()), tagsSx(msg.Trailer.Tags()), mt, fl), msg
+}
+
+type wireField struct {
+	tag int
+	val []byte
+}
+
+func wireFields(raw []byte) []wireField {
+	var out []wireField
+	dataLen := -1
+	for len(raw) > 0 {
+		eq := bytes.IndexByte(raw, '=')
+		if eq < 0 {
+			break
+		}
+		tag, err := strconv.Atoi(string(raw[:eq]))
+		if err != nil {
+			break
+		}
+		rest := raw[eq+1:]
+		end := bytes.IndexByte(rest, 1)
+		if tag == 213 && dataLen >= 0 && dataLen < len(rest) && rest[dataLen] == 1 {
+			end = dataLen
+		}
+		if end < 0 {
+			break
+		}
+		out = append(out, wireField{tag, rest[:end]})
+		dataLen = -1
+		if tag == 212 {
+			if n, err := strconv.Atoi(string(rest[:end])); err == nil {
+				dataLen = n
+			}
+		}
+		raw = rest[end+1:]
+	}
+	return out
 }
 
 func verdict(s vset, app, transport *dd.DataDictionary, msg *quickfix.Message) Sx {
